@@ -49,7 +49,7 @@ func (h *H[T]) C10(rc *runCtx) *Violation {
 	if a.Channels*a.Capacity > 1024 && nOps > 60 {
 		nOps = 60
 	}
-	cont := []int{8, 3, 24, 64}[prog.Draw(4)]
+	cont := []int{8, 3, 24, 64, 200}[prog.Draw(5)]
 	maxOut := 1 + prog.Draw(rc.b.MaxOut)
 	rc.cfg = spA("alloc=%+v meanops=%d maxout=%d %s", a, cont, maxOut, env)
 	sim.Tracef("config: T=%s %s", h.name, rc.cfg)
